@@ -235,6 +235,8 @@ class Session:
             self.res.opaque = sorted(set(self.res.opaque) | self.mode.opaque_ops)
             self.res.validated += self.mode.validated
             self.res.paths += 1
+            for f in sorted(set(self.mode.taint_lost)):
+                self.res.query("taint-continuity", "engine", "unknown", 0.0, symbolic=False, note=f"{f} returned concrete data for symbolic inputs: computed below the ATen boundary, claims depending on it are not decided")
         return r
 
 
